@@ -22,13 +22,22 @@ void ::sqf::parser::sqf::formatter::formatter::prettify(const ::sqf::parser::sqf
     case bison::astkind::EXP8:
     case bison::astkind::EXP9:
     {
+        // the tree only keeps the grouping: parentheses have to be re-emitted wherever the
+        // grouping differs from what precedence and left-associativity would give
+        auto is_binary = [](const bison::astnode& n) { return n.kind >= bison::astkind::EXP0 && n.kind <= bison::astkind::EXP9; };
+        bool paren_left = is_binary(node.children[0]) && node.children[0].kind < node.kind;
+        bool paren_right = is_binary(node.children[1]) && node.children[1].kind <= node.kind;
+        if (paren_left) { buff << "("; }
         this->prettify(node.children[0], depth, buff);
+        if (paren_left) { buff << ")"; }
         buff << " ";
         auto s = std::string(node.token.contents);
         std::transform(s.begin(), s.end(), s.begin(), [](char& c) { return (char)std::tolower((int)c); });
         buff << s;
         buff << " ";
+        if (paren_right) { buff << "("; }
         this->prettify(node.children[1], depth, buff);
+        if (paren_right) { buff << ")"; }
     }
     break;
     case bison::astkind::EXPU:
@@ -38,16 +47,19 @@ void ::sqf::parser::sqf::formatter::formatter::prettify(const ::sqf::parser::sqf
         buff << s;
         buff << " ";
 
+        // a binary expression as operand of a unary operator needs its parentheses back
+        bool paren = node.children[0].kind >= bison::astkind::EXP0 && node.children[0].kind <= bison::astkind::EXP9;
         if (s == "if" && node.children[0].token.contents != "!")
-            buff << "(";
+            paren = true;
         else if (s == "!")
+            paren = true;
+
+        if (paren)
             buff << "(";
 
         this->prettify(node.children[0], depth, buff);
 
-        if (s == "if" && node.children[0].token.contents != "!")
-            buff << ")";
-        else if (s == "!")
+        if (paren)
             buff << ")";
     }
     break;
